@@ -4,3 +4,7 @@ pub mod rng;
 pub mod util;
 pub mod drive;
 pub mod irdump;
+pub mod cgen;
+pub mod inventory;
+pub mod probe;
+pub mod irlayout;
